@@ -93,15 +93,43 @@ impl Task for Tup {
   }
 }
 
+// Zero-sized families: unit-struct tasks and unit-struct map keys. Derived Hash feeds nothing into the hasher, so all of
+// them collide in every hash map; only the concrete type tells them apart.
+macro_rules! unit_key { ($name:ident) => {
+  #[derive(Clone, Copy, PartialEq, Eq, Hash)]
+  pub struct $name;
+  impl Debug for $name { fn fmt(&self, f: &mut fmt::Formatter<'_>) -> fmt::Result { write!(f, "Unit") } }
+  impl MapKey for $name { type Value = u32; }
+}; }
+unit_key!(ZK1);
+unit_key!(ZK2);
+macro_rules! unit_task { ($name:ident, $tag:expr, $key:ident, $base:expr) => {
+  #[derive(Clone, PartialEq, Eq, Hash)]
+  pub struct $name;
+  impl Debug for $name { fn fmt(&self, f: &mut fmt::Formatter<'_>) -> fmt::Result { write!(f, "Unit") } }
+  impl Task for $name {
+    type Output = u32;
+    fn execute<C: Context>(&self, ctx: &mut C) -> u32 {
+      BODY_RUNS.with(|b| b.borrow_mut().push(($tag, 0)));
+      let seen = ctx.read(&$key, MapEqualsChecker).ok().and_then(|v| v.copied()).unwrap_or(0);
+      $base + seen * 1000
+    }
+  }
+}; }
+unit_task!(ZA, "ZA", ZK1, 7);
+unit_task!(ZB, "ZB", ZK2, 11);
+/// Where the model keeps the value of the unit keys ZK1 / ZK2 (inside the K1 / K2 model maps).
+const ZSLOT: u32 = 1000;
+
 #[derive(Clone, Copy, Debug, PartialEq, Eq, PartialOrd, Ord, Hash)]
-pub enum Ty { A, B, Tup, BoxA, RcA, ArcA, BoxB, WA, WB }
-const TYS: [Ty; 9] = [Ty::A, Ty::B, Ty::Tup, Ty::BoxA, Ty::RcA, Ty::ArcA, Ty::BoxB, Ty::WA, Ty::WB];
+pub enum Ty { A, B, Tup, BoxA, RcA, ArcA, BoxB, WA, WB, ZA, ZB }
+const TYS: [Ty; 11] = [Ty::A, Ty::B, Ty::Tup, Ty::BoxA, Ty::RcA, Ty::ArcA, Ty::BoxB, Ty::WA, Ty::WB, Ty::ZA, Ty::ZB];
 
 fn key_of(ty: Ty, v: u32) -> Box<dyn KeyObj> {
   match ty {
     Ty::A => Box::new(A(v)), Ty::B => Box::new(B(v)), Ty::Tup => Box::new(Tup((v,))),
     Ty::BoxA => Box::new(Box::new(A(v))), Ty::RcA => Box::new(Rc::new(A(v))), Ty::ArcA => Box::new(Arc::new(A(v))), Ty::BoxB => Box::new(Box::new(B(v))),
-    Ty::WA => Box::new(WA(v)), Ty::WB => Box::new(WB(v)),
+    Ty::WA => Box::new(WA(v)), Ty::WB => Box::new(WB(v)), Ty::ZA => Box::new(ZA), Ty::ZB => Box::new(ZB),
   }
 }
 
@@ -109,7 +137,7 @@ fn require(s: &mut pie::Session, ty: Ty, v: u32) -> u32 {
   match ty {
     Ty::A => s.require(&A(v)), Ty::B => s.require(&B(v)), Ty::Tup => s.require(&Tup((v,))),
     Ty::BoxA => s.require(&Box::new(A(v))), Ty::RcA => s.require(&Rc::new(A(v))), Ty::ArcA => s.require(&Arc::new(A(v))), Ty::BoxB => s.require(&Box::new(B(v))),
-    Ty::WA => s.require(&WA(v)), Ty::WB => s.require(&WB(v)),
+    Ty::WA => s.require(&WA(v)), Ty::WB => s.require(&WB(v)), Ty::ZA => s.require(&ZA), Ty::ZB => s.require(&ZB),
   }
 }
 
@@ -117,7 +145,8 @@ fn require(s: &mut pie::Session, ty: Ty, v: u32) -> u32 {
 fn expected(ty: Ty, v: u32, k1: &BTreeMap<u32, u32>, k2: &BTreeMap<u32, u32>) -> u32 {
   let a = |v: u32| v * 3 + k1.get(&v).copied().unwrap_or(0) * 1000 + k1.get(&(v + 10)).copied().unwrap_or(0) * 100_000 + 1;
   let b = |v: u32| v * 5 + k2.get(&v).copied().unwrap_or(0) * 1000 + 1;
-  match ty { Ty::A | Ty::BoxA | Ty::RcA | Ty::ArcA => a(v), Ty::B | Ty::BoxB => b(v), Ty::Tup => a(v) * 7 + b(v), Ty::WA => v + 40, Ty::WB => v + 50 }
+  match ty { Ty::A | Ty::BoxA | Ty::RcA | Ty::ArcA => a(v), Ty::B | Ty::BoxB => b(v), Ty::Tup => a(v) * 7 + b(v), Ty::WA => v + 40, Ty::WB => v + 50,
+    Ty::ZA => 7 + k1.get(&ZSLOT).copied().unwrap_or(0) * 1000, Ty::ZB => 11 + k2.get(&ZSLOT).copied().unwrap_or(0) * 1000 }
 }
 
 fn hash_of(k: &dyn KeyObj) -> u64 { let mut h = DefaultHasher::new(); k.hash(&mut h); h.finish() }
@@ -131,6 +160,12 @@ fn direct_leg(rep: &mut Report, alarm: &dyn Fn(&mut Report, &str, String)) {
     keys.push(("K2".into(), v, Box::new(K2(v))));
     keys.push(("u32".into(), v, Box::new(v)));
   }
+  // zero-sized keys: one value per type
+  keys.push(("ZK1".into(), 0, Box::new(ZK1)));
+  keys.push(("ZK2".into(), 0, Box::new(ZK2)));
+  keys.push(("unit".into(), 0, Box::new(())));
+  keys.push(("phantom".into(), 0, Box::new(std::marker::PhantomData::<u8>)));
+  keys.retain(|(t, v, _)| !((t == "ZA" || t == "ZB") && *v != 0));
   for (ta, va, a) in &keys {
     for (tb, vb, b) in &keys {
       let want = ta == tb && va == vb;
@@ -168,11 +203,15 @@ fn one_case(seed: u64, i: u64, rep: &mut Report) {
     for _ in 0..rng.below(3) {
       let v = rng.below(3) as u32 + if rng.chance(1, 4) { 10 } else { 0 };
       let val = rng.below(4) as u32;
-      if v >= 10 || rng.chance(1, 2) { pie.resource_state_mut::<K1>().get_global_map_mut().insert(K1(v), val); k1.insert(v, val); history.push(format!("K1({}) := {}", v, val)); }
+      if rng.chance(1, 6) {
+        if rng.chance(1, 2) { pie.resource_state_mut::<ZK1>().get_global_map_mut().insert(ZK1, val); k1.insert(ZSLOT, val); history.push(format!("ZK1 := {}", val)); }
+        else { pie.resource_state_mut::<ZK2>().get_global_map_mut().insert(ZK2, val); k2.insert(ZSLOT, val); history.push(format!("ZK2 := {}", val)); }
+      }
+      else if v >= 10 || rng.chance(1, 2) { pie.resource_state_mut::<K1>().get_global_map_mut().insert(K1(v), val); k1.insert(v, val); history.push(format!("K1({}) := {}", v, val)); }
       else { pie.resource_state_mut::<K2>().get_global_map_mut().insert(K2(v), val); k2.insert(v, val); history.push(format!("K2({}) := {}", v, val)); }
     }
     let n = rng.range(2, 6);
-    let reqs: Vec<(Ty, u32)> = (0..n).map(|_| (*rng.pick(&TYS), rng.below(3) as u32)).collect();
+    let reqs: Vec<(Ty, u32)> = (0..n).map(|_| (*rng.pick(&TYS), rng.below(3) as u32)).map(|(ty, v)| (ty, if matches!(ty, Ty::ZA | Ty::ZB) { 0 } else { v })).collect();
     history.push(format!("session: require {:?}", reqs));
     BODY_RUNS.with(|b| b.borrow_mut().clear());
     let res = catch(|| {
@@ -206,7 +245,9 @@ fn one_case(seed: u64, i: u64, rep: &mut Report) {
           else if let Some(t) = any.downcast_ref::<Arc<A>>() { Some((Ty::ArcA, t.0)) }
           else if let Some(t) = any.downcast_ref::<Box<B>>() { Some((Ty::BoxB, t.0)) }
           else if let Some(t) = any.downcast_ref::<WA>() { Some((Ty::WA, t.0)) }
-          else if let Some(t) = any.downcast_ref::<WB>() { Some((Ty::WB, t.0)) } else { None };
+          else if let Some(t) = any.downcast_ref::<WB>() { Some((Ty::WB, t.0)) }
+          else if any.downcast_ref::<ZA>().is_some() { Some((Ty::ZA, 0)) }
+          else if any.downcast_ref::<ZB>().is_some() { Some((Ty::ZB, 0)) } else { None };
         match id {
           Some(id) => {
             if !nodes.insert(id) { alarm(rep, "duplicate-node", format!("two task nodes for {:?}", id), &history); return; }
@@ -248,7 +289,7 @@ pub fn run(tier: &str, seed: u64, replay: Option<u64>) -> Report {
   });
   let parts = util::parallel(n, if tier == "miri" { 1 } else { util::threads() }, 32, Report::new, |i, rep: &mut Report| { one_case(seed, i, rep); rep.alarm_total < 20 });
   for p in parts { total.merge(p); }
-  total.rule = "Families with identical representation, hash and debug text: tasks A(u32) (reads K1(v), K1(v+10)), B(u32) (reads K2(v)), Tup((u32,)) (requires the same-valued A and B), Box<A>, Rc<A>, Arc<A>, Box<B>, WA(u32) (writes K1(v+20)), WB(u32) (writes K2(v+10), K2(v+20)); map-key resources K1(u32), K2(u32). Direct leg: ==, Hash and clone on &dyn KeyObj for all ordered pairs of 12 kinds x 3 values. Build leg: random sequences of sessions requiring random members with values 0..3, interleaved with external changes of K1/K2 entries carrying the same numbers; Oracle: every returned output equals the from-scratch formula for that (type, value); the store dump holds exactly one task node per distinct (type, value) required so far; no abort (a cross-type alias would be diagnosed as overlap / hidden dependency); an immediately repeated session runs no task body. non-trivial = instance that ended with >= 4 distinct tasks.".into();
+  total.rule = "Families with identical representation, hash and debug text: tasks A(u32) (reads K1(v), K1(v+10)), B(u32) (reads K2(v)), Tup((u32,)) (requires the same-valued A and B), Box<A>, Rc<A>, Arc<A>, Box<B>, WA(u32) (writes K1(v+20)), WB(u32) (writes K2(v+10), K2(v+20)); map-key resources K1(u32), K2(u32); zero-sized families (all hash alike because they hash nothing): unit-struct tasks ZA (reads unit key ZK1), ZB (reads unit key ZK2), plus () and PhantomData as keys in the direct leg. Direct leg: ==, Hash and clone on &dyn KeyObj for all ordered pairs of 12 kinds x 3 values and the zero-sized kinds. Build leg: random sequences of sessions requiring random members with values 0..3, interleaved with external changes of K1/K2 entries carrying the same numbers; Oracle: every returned output equals the from-scratch formula for that (type, value); the store dump holds exactly one task node per distinct (type, value) required so far; no abort (a cross-type alias would be diagnosed as overlap / hidden dependency); an immediately repeated session runs no task body. non-trivial = instance that ended with >= 4 distinct tasks.".into();
   total.floor("sessions ran", total.get("sessions") > 10 || tier == "miri");
   total
 }
